@@ -215,7 +215,32 @@ def gen_c03(rng, tier):
     for selfmode in (True, False):
         w = World(rng, selfmode=selfmode, denymode=False)
         cases.append(case(w, stun_sweep_frames(rng, w), ['stun-change-request-sweep', 'self-list' if selfmode else 'no-self-list']))
+        cases.append(case(w, l24_request_sweep(rng, w), ['request-mac-source-sweep']))
     return cases + gen_sticky(rng, tier)
+
+
+KNOWN_ETYPES = [0x0800, 0x0806, 0x86dd, 0x8100, 0x88a8, 0x9100, 0x9200, 0x8847, 0x8848, 0x8863, 0x8864, 0x88cc, 0x0842, 0x8035, 0x809b,
+                0x80f3, 0x8137, 0x8138, 0x88e5, 0x88f7, 0x22f3, 0x6003, 0x8870, 0x88b8, 0x8915, 0x0101, 0x05ff, 0x0600]
+
+
+def ethertype_frames(rng, w):
+    """frames of every well-known EtherType: with 0..5 payload bytes (runts of a newly handled type), and carrying a tag / shim in
+    front of an inner EtherType and a well-formed answerable packet (802.1Q priority and VLAN tags, Q-in-Q, MPLS-like shims)"""
+    out = []
+    echo4 = ipv4(w.cl4, w.my4, 1, icmp(8, 0, b'abcdefgh'))
+    echo6 = ipv6(w.cl6, w.my6, 58, icmp6(128, 0, b'abcdefgh', w.cl6, w.my6))
+    arpq = arp(1, w.cl_mac, w.cl4, bytes(6), w.my4)
+    syn4 = ipv4(w.cl4, w.my4, 6, lib.tcp(4000, 80, 1, 0, 2, src=w.cl4, dst=w.my4))
+    for ety in KNOWN_ETYPES:
+        for dm in (w.mac, BCAST):
+            for n in range(6):
+                out.append(eth(dm, w.cl_mac, ety, rng.choice([bytes(n), rng.bytes(n), b'\x00\x00\x08\x00\x45'[:n]])))
+        for tci in (b'\x00\x00', b'\xe0\x00', b'\x00\x01', b'\x0f\xff', b'\x10\x00'):
+            for inner, pkt in ((0x0800, echo4), (0x0806, arpq), (0x86dd, echo6), (0x0800, syn4)):
+                out.append(eth(w.mac if inner != 0x0806 else BCAST, w.cl_mac, ety, tci + struct.pack('>H', inner) + pkt))
+        out.append(eth(w.mac, w.cl_mac, ety, b'\x00\x00\x81\x00\x00\x00\x08\x00' + echo4))      # double tag
+        out.append(eth(w.mac, w.cl_mac, ety, echo4))
+    return out
 
 
 def gen_c02(rng, tier):
@@ -227,6 +252,7 @@ def gen_c02(rng, tier):
         frames.append(w.f4(proto, icmp(8, 0, b'abcdefgh') + bytes(20)))
         frames.append(w.f6(proto, icmp6(128, 0, b'abcdefgh', w.cl6, w.my6) + bytes(20)))
     cases.append(case(w, frames, ['ethertype-sweep', 'protocol-sweep']))
+    cases.append(case(w, ethertype_frames(rng, w), ['ethertype-runts-and-tags']))
     # destination-address sweep: every kind of answerable request, addressed to group / broadcast / foreign /
     # second-self addresses, on every accepted destination MAC class, with and without a self-IP list
     for selfmode in (True, False):
@@ -262,6 +288,10 @@ def gen_c02(rng, tier):
     return cases
 
 
+TCP_OPT_MSS = b'\x02\x04\x05\xb4'
+TCP_OPT_LINUX = b'\x02\x04\x05\xb4\x04\x02\x08\x0a\x00\x11\x22\x33\x00\x00\x00\x00\x01\x03\x03\x07'
+
+
 def gen_c06(rng, tier):
     cases = []
     nw = 2 if tier == 'quick' else 12
@@ -278,7 +308,12 @@ def gen_c06(rng, tier):
                     sport, dport = rng.u16(), rng.u16()
                     s, d = w.addrs(v6)
                     ack = rng.choice([0, (w.cookie(s, d, sport, dport) + 1) & 0xffffffff, rng.below(1 << 32)])
-                    frames.append(w.tcp_frame(v6, sport, dport, seq, ack, flags, pl))
+                    # TCP options as real stacks send them on SYNs (MSS alone, the Linux set, window scale / SACK / timestamps in
+                    # other orders, a malformed option), and other advertised windows
+                    opts = rng.choice([b'', b'', b'', TCP_OPT_MSS, TCP_OPT_LINUX, b'\x01\x01' + TCP_OPT_MSS + b'\x01\x03\x03\x07',
+                                       b'\x02\x04\xff\xff', b'\x02\x00\x00\x00', rng.bytes(4 * (1 + rng.below(3)))])
+                    frames.append(w.tcp_frame(v6, sport, dport, seq, ack, flags, pl, opts=opts, doff=5 + len(opts) // 4,
+                                              win=rng.choice([8192, 8192, 0, 1, 65535, 1024])))
             # history: some valid data first so that the table is not empty
             pre = [w.data_frame(v6, 1000 + k, 80, 5, b'GET / HTTP/1.1\r\n\r\n') for k in range(3)]
             # SYNs on the very tuples that now have a table entry (all SYN-bearing flag words the Linux rule
@@ -321,7 +356,7 @@ def gen_flows(rng, tier, nflows=4, steps=60):
         w = World(rng, selfmode=rng.chance(1, 2), denymode=False, key=rng.choice([(0, 0), (rng.next(), rng.next())]))
         flows = []
         for _ in range(1 + rng.below(nflows)):
-            flows.append([rng.chance(1, 2), rng.u16(), rng.u16(), rng.u32(), b'', False])   # v6, sport, dport, seq, pending remainder, second address
+            flows.append([rng.chance(1, 2), rng.u16(), rng.choice([rng.u16(), rng.u16(), rng.choice(gen.PORTS)]), rng.u32(), b'', False])   # v6, sport, dport, seq, pending remainder, second address
         if ci % 5 == 1:
             # IPv4 endpoints and their IPv4-mapped IPv6 twins, same ports, both flows active
             w.cl6, w.my6 = bytes(10) + b'\xff\xff' + w.cl4, bytes(10) + b'\xff\xff' + w.my4
@@ -402,7 +437,7 @@ def gen_sticky(rng, tier, n=None):
     for i in range(n):
         w = World(rng, selfmode=rng.chance(1, 2), denymode=False, key=rng.choice([(0, 0), (rng.next(), rng.next())]))
         v6, second = rng.chance(1, 2), rng.chance(1, 4)
-        sport, dport = rng.u16(), rng.choice([80, 22, 111, 445, 3478, rng.u16(), rng.u16()])
+        sport, dport = rng.u16(), rng.choice(gen.PORTS + [rng.u16()] * 8)
         st = {'seq': rng.choice([rng.u32(), 0xffffff00 + rng.below(256), rng.below(64)])}
         kind = kinds[i % len(kinds)]
         chg = gen.stun_attr(3, struct.pack('>I', 2)) + gen.stun_attr(0x8022, bytes(252))
@@ -415,7 +450,7 @@ def gen_sticky(rng, tier, n=None):
         frames = []
 
         def data(pl, flags=0x18, ackdelta=1):
-            frames.append(w.data_frame(v6, sport, dport, st['seq'], pl, flags=flags, ackdelta=ackdelta, second=second))
+            frames.append(w.data_frame(v6, sport, dport, st['seq'], pl, flags=flags, ackdelta=ackdelta, second=second, win=rng.choice(gen.WINDOWS)))
             st['seq'] = (st['seq'] + len(pl)) & M
 
         def ctl(flags, seq=None, pl=b''):
@@ -526,6 +561,19 @@ def gen_c09(rng, tier):
             else:
                 frames.append(w.udp_frame(v6, rng.u16(), rng.u16(), gen.gen_app(rng)[2]))
         cases.append(case(w, frames, ['flood']))
+    # the complete handshake without data, on every port a responder might single out: SYN, the ACK that acknowledges the cookie,
+    # and control segments behind it -- none of them may create state
+    for v6 in (False, True):
+        w = World(rng, selfmode=False, denymode=False)
+        frames = []
+        s_, d_ = w.addrs(v6)
+        for dport in gen.PORTS + [rng.u16(), 0, 65535]:
+            sport = rng.u16()
+            ck = w.cookie(s_, d_, sport, dport)
+            frames += [w.tcp_frame(v6, sport, dport, 100, 0, 0x02), w.tcp_frame(v6, sport, dport, 101, (ck + 1) & 0xffffffff, 0x10),
+                       w.tcp_frame(v6, sport, dport, 101, (ck + 1) & 0xffffffff, 0x10), w.tcp_frame(v6, sport, dport, 101, (ck + 1) & 0xffffffff, 0x11),
+                       w.tcp_frame(v6, sport, dport, 102, (ck + 1) & 0xffffffff, 0x04), w.tcp_frame(v6, sport, dport, 101, (ck + 1) & 0xffffffff, 0x10)]
+        cases.append(case(w, frames, ['handshake-without-data']))
     return cases
 
 
@@ -602,7 +650,7 @@ def gen_c01(rng, tier):
             for lg in LOGGERS:
                 for lv in LEVELS:
                     w = World(rng, selfmode=bool(si), denymode=bool(di), logger=lg, level=lv)
-                    cases.append(case(w, hostile_frames(rng, w, per) + probe_frames(w), ['hostile', 'logger:' + lg, 'level:' + lv]))
+                    cases.append(case(w, hostile_frames(rng, w, per) + probe_frames(w) + ethertype_frames(rng, w), ['hostile', 'logger:' + lg, 'level:' + lv]))
     # flow-reuse histories: a few 4-tuples that see SYN / data of different protocols / FIN / RST in sequence
     # (stale per-flow parser state, poisoned-mutex cascades)
     for fc in gen_flows(rng, tier, nflows=3, steps=80)[: (40 if tier == 'quick' else 1000)] + gen_reuse(rng, tier) + gen_sticky(rng, tier):
@@ -644,6 +692,28 @@ def gen_c20(rng, tier):
         fc['tags'].append('logger:' + fc['ops'][0][1]['logger'])
         cases.append(fc)
     return cases
+
+
+def l24_request_sweep(rng, w):
+    """every kind of layer 2-4 request on every accepted destination MAC class (own, broadcast, all-nodes, the IPv4-multicast /
+    solicited-node mappings of the handled addresses), from ordinary and special sources (unspecified, link-local, loopback)"""
+    macs = [w.mac, BCAST, bytes.fromhex('333300000001'), bytes([0x33, 0x33, 0xff]) + w.my6[13:16],
+            bytes([1, 0, 0x5e, w.my4[1] & 0x7f, w.my4[2], w.my4[3]])]
+    frames = []
+    for dm in macs:
+        for s6 in (w.cl6, bytes(16), ip6('fe80::7'), ip6('::1')):
+            frames.append(eth(dm, w.cl_mac, 0x86dd, ipv6(s6, w.my6, 58, icmp6(128, 0, b'abcdefgh', s6, w.my6))))
+            ns = icmp6(135, 0, bytes(4) + w.my6 + (b'' if s6 == bytes(16) else b'\x01\x01' + w.cl_mac), s6, w.my6)
+            frames.append(eth(dm, w.cl_mac, 0x86dd, ipv6(s6, w.my6, 58, ns, hlim=255)))
+            sn = bytes.fromhex('ff0200000000000000000001ff') + w.my6[13:16]
+            ns2 = icmp6(135, 0, bytes(4) + w.my6 + (b'' if s6 == bytes(16) else b'\x01\x01' + w.cl_mac), s6, sn)
+            frames.append(eth(dm, w.cl_mac, 0x86dd, ipv6(s6, sn, 58, ns2, hlim=255)))
+            frames.append(eth(dm, w.cl_mac, 0x86dd, ipv6(s6, w.my6, 6, lib.tcp(4000, 80, 1, 0, 2, src=s6, dst=w.my6))))
+        for s4 in (w.cl4, bytes(4), ip4('169.254.1.1'), ip4('127.0.0.1')):
+            frames.append(eth(dm, w.cl_mac, 0x0800, ipv4(s4, w.my4, 1, icmp(8, 0, b'abcdefgh'))))
+            frames.append(eth(dm, w.cl_mac, 0x0800, ipv4(s4, w.my4, 6, lib.tcp(4000, 80, 1, 0, 2, src=s4, dst=w.my4))))
+            frames.append(eth(dm, w.cl_mac, 0x0806, arp(1, w.cl_mac, s4, bytes(6), w.my4)))
+    return frames
 
 
 def gen_c05(rng, tier):
@@ -697,7 +767,8 @@ def gen_c05(rng, tier):
                 else:
                     ln = rng.choice([0, 1, 4, 8, 13, 56, 100, 1452, 1455, 1456, rng.below(1457), 1448 + rng.below(9)])
                     frames.append(w.f6(58, icmp6(ty, code, rng.bytes(ln), w.cl6, dst or w.my6), dst=dst))
-        cases.append(case(w, frames, ['arp-grid', 'icmp-grid']))
+        frames += l24_request_sweep(rng, w)
+        cases.append(case(w, frames, ['arp-grid', 'icmp-grid', 'request-mac-source-sweep']))
     return cases
 
 
@@ -790,7 +861,7 @@ def gen_appcases(kinds, tcp=None, v6=None, per=400, mutate_ratio=6):
                         # a fresh 4-tuple for every TCP frame (the protocol id is sticky per flow)
                         _ck[0] += 1
                         dp = _ck[0] % 65536
-                        ops.append(('F', w.data_frame(v, sp, dp, rng.u32(), pl)))
+                        ops.append(('F', w.data_frame(v, sp, dp, rng.u32(), pl, win=rng.choice(gen.WINDOWS))))
                     else:
                         ops.append(('F', w.udp_frame(v, sp, dp, pl)))
                 else:
@@ -968,6 +1039,29 @@ def post_c10(cases):
     return out
 
 
+def gen_c15(rng, tier):
+    """application cases + every STUN message type (class x method bits) as a later message of a TCP connection already
+    identified as STUN (the only way a type other than 00 01 reaches the responder), and as a datagram"""
+    cases = gen_appcases(['stun', 'stun', 'stun', 'raw'])(rng, tier)
+    w = World(rng, selfmode=False, denymode=False)
+    ops = []
+    b0s = (0, 1, 2, 3, 0x3e, 0x3f, 0x40, 0x80) if tier == 'quick' else range(256)
+    for b0 in b0s:
+        _ck[0] += 1
+        ck = _ck[0]
+        v, sp, dp = rng.chance(1, 2), rng.u16(), rng.u16()
+        ops.append(app_op(rng, w, gen.gen_stun_long(rng), tcp=True, v6=v, sport=sp, dport=dp, cookie=ck))
+        ops.append(('P', ck))
+        for b1 in range(256):
+            attrs = rng.choice([b'', b'', gen.stun_attr(3, struct.pack('>I', 2))])
+            msg = bytes([b0, b1]) + struct.pack('>H', len(attrs)) + rng.choice([b'\x21\x12\xa4\x42', rng.bytes(4)]) + rng.bytes(12) + attrs
+            ops.append(app_op(rng, w, msg, tcp=True, v6=v, sport=sp, dport=dp, cookie=ck, meta={'mode': 'sticky'}))
+            if b0 < 2 and b1 < 4:
+                ops.append(app_op(rng, w, msg, tcp=False))
+    cases.append(acase(w, ops, ['stun-message-type-sweep']))
+    return cases
+
+
 # ----------------------------------------------------------------------------- property table
 
 PROPS = {
@@ -988,7 +1082,7 @@ PROPS = {
     'C14': dict(gen=lambda rng, tier: gen_c14(rng, tier), judge='C14', judge_mode='app', proj=proj_headers,
                 rule='DNS messages (ids, flag words, 0..k questions, label layouts, type/class grids, QR=1, extra sections, truncation) over UDP; '
                      'non-trivial = IN/A query over IPv4 (answer checked by the independent parser) or non-IN/A / truncated message (silence checked)'),
-    'C15': dict(gen=gen_appcases(['stun', 'stun', 'stun', 'raw']), judge='C15', judge_mode='app', proj=proj_headers,
+    'C15': dict(gen=gen_c15, judge='C15', judge_mode='app', proj=proj_headers,
                 rule='STUN messages with/without magic cookie, attribute lists well-formed (padded) and with lying TLV lengths, change-request flags, '
                      'all class/method codes; non-trivial = binding request identified by the published signatures, or a message of another class/method'),
     'C16': dict(gen=gen_appcases(['rpc', 'rpc', 'rpc', 'raw']), judge='C16', judge_mode='app', proj=proj_headers,
@@ -1769,6 +1863,25 @@ def explore_c19(prop, pd, tier, rng, corpus_cases):
                 ops.append(('F', w.udp_frame(v6, rng.u16(), dp, pl, second=rng.chance(1, 4))))
                 variants.append(len(ops) - 1)
         fgroups.append((kind, fault, pl, variants))
+    # TCP, through the real layers with the complete handshake a real client performs (SYN, the ACK acknowledging the cookie, then
+    # the request): the answer to the request on the ports a responder might single out, on boundary ports, over both IP versions
+    hgroups = []
+    for kind in ('ssh', 'http', 'rpc', 'smb1', 'smb2', 'ghost', 'stun', 'ssh', 'http') * (1 if tier == 'quick' else 12):
+        pl = gen.gen_stun_long(rng) if kind == 'stun' else gen.gen_app(rng, tcp=True, kinds=[kind])[2]
+        variants, firsts = [], []
+        for v6 in (False, True):
+            s_, d_ = w.addrs(v6)
+            for dp in gen.PORTS + [0, 65535, rng.u16()]:
+                _ck[0] += 1
+                sp = 1024 + _ck[0] % 60000
+                ck = w.cookie(s_, d_, sp, dp)
+                seq = rng.u32()
+                firsts.append(len(ops))
+                ops.append(('F', w.tcp_frame(v6, sp, dp, seq, 0, 0x02)))
+                ops.append(('F', w.tcp_frame(v6, sp, dp, (seq + 1) & 0xffffffff, (ck + 1) & 0xffffffff, 0x10)))
+                ops.append(('F', w.data_frame(v6, sp, dp, (seq + 1) & 0xffffffff, pl)))
+                variants.append(len(ops) - 1)
+        hgroups.append((kind, pl, variants, firsts))
     if w.key == (0, 0) or True:
         # corpus: under key (0,0) the flow 10.0.180.59:61397 -> 198.51.100.7:22 has cookie 0xFFFFFFFF, so its first data
         # segment acknowledges 0 (32-bit wrap); compared with the neighbouring source port
@@ -1815,6 +1928,26 @@ def explore_c19(prop, pd, tier, rng, corpus_cases):
             violations.append({'clause': 'answer to the same UDP payload depends on ports / IP version / checksum representation (frame level): variant %d differs' % bad,
                                'ops': [op_to_json(ops[0]), ['X'], op_to_json(ops[variants[0]]), op_to_json(ops[variants[bad]])],
                                'tags': [kind, str(fault), 'frame-level'], 'outs': [str(outs[0])[:200], str(outs[bad])[:200]]})
+    for kind, pl, variants, firsts in hgroups:
+        outs = []
+        for i in variants:
+            r = c['impl'][i]['r']
+            if outcome(r) == 'reply':
+                d = split_reply(bytes.fromhex(r))
+                rq = split_reply(c['ops'][i][1])
+                delta = (d['tcp'][0] - rq['tcp'][1]) % 65536 if 'tcp' in d and 'tcp' in rq else None
+                # the segments before the request may not carry application data either
+                pre = tuple(bool(split_reply(bytes.fromhex(c['impl'][j]['r'])).get('app')) if outcome(c['impl'][j]['r']) == 'reply' else False for j in (i - 2, i - 1))
+                outs.append(canon_app((d.get('app') or b'').hex() or '-', delta) + (pre,))
+            else:
+                outs.append((outcome(r),))
+        if any(o[0] not in ('silent',) for o in outs):
+            nontrivial += 1
+        if len(set(outs)) != 1:
+            bad = next(i for i, o in enumerate(outs) if o != outs[0])
+            violations.append({'clause': 'answer to the same request after a complete handshake depends on the port / IP version: variant %d differs' % bad,
+                               'ops': [op_to_json(ops[0]), ['X']] + [op_to_json(ops[j]) for j in range(firsts[0], firsts[0] + 3)] + [op_to_json(ops[j]) for j in range(firsts[bad], firsts[bad] + 3)],
+                               'tags': [kind, 'handshake'], 'outs': [str(outs[0])[:200], str(outs[bad])[:200]]})
     for kind, fault, tcp, pl, variants in groups:
         outs = []
         for i in variants:
@@ -1930,8 +2063,12 @@ def explore_c08(prop, pd, tier, rng, corpus_cases):
                     uframe(v6, src, dst2, sw.cl_mac, sp, dp, pl), uframe(v6, src2, dst, mac2, sp, dp, bytes(b1)),
                     uframe(v6, src, dst, sw.cl_mac, sp, dp, flipcase(pl)), uframe(v6, src, dst, sw.cl_mac, sp, dp, pl),
                     sw.data_frame(v6, sp, dp, rng.u32(), flipcase(pl) or b'x')]
+            # unfinished versions of the probe from another endpoint (a parser shared between datagrams would keep their state):
+            # cut after the first line, at a random byte, one byte short
+            cutpoints = sorted(set([pl.find(b'\n') + 1 if b'\n' in pl else len(pl) // 2, rng.below(len(pl) + 1), max(0, len(pl) - 1)]))
+            near += [uframe(v6, src2, dst, mac2, sp ^ 2, dp, pl[:k]) for k in cutpoints if 0 < k < len(pl)]
         rng_near = [near[rng.below(len(near))] for _ in range(4)]
-        variants = [[], near, near[:1], near[4:5], rng_near + [gen.gen_frame(rng, sw)[1] for _ in range(4)], near + near]
+        variants = [[], near, near[:1], near[4:5], rng_near + [gen.gen_frame(rng, sw)[1] for _ in range(4)], near + near] + [[x] for x in near[7:]]
         ids = []
         for vh in variants:
             cases.append({'ops': [swcfg, ('X',)] + [('F', x) for x in vh] + [('F', probe)], 'tags': ['stateless-probe', 'probe:' + kind]})
@@ -2167,14 +2304,16 @@ def explore_c12(prop, pd, tier, rng, corpus_cases):
     msgs = fixed + own
     violations, disagreements, samples = [], [], []
     chain_cases = []
-    cur = [(k, tcp, pl, [], k) for k, tcp, pl in msgs]
+    # every message is sent to an arbitrary port and to the well-known port of its protocol (a responder may single that one out)
+    WK = {'rpc': 111, 'dns': 53, 'stun': 3478, 'smb': 445}
+    cur = [(k, tcp, pl, [], k, dp) for k, tcp, pl in msgs for dp in (5000, WK.get(k, 80))]
     for depth in range(4):
-        ops = [('C', w.cfg()), ('X',)] + [app_op(rng, w, pl, tcp=tcp, v6=False, sport=4000, dport=5000) for _, tcp, pl, _, _ in cur]
+        ops = [('C', w.cfg()), ('X',)] + [app_op(rng, w, pl, tcp=tcp, v6=False, sport=4000, dport=dp) for _, tcp, pl, _, _, dp in cur]
         cc = {'ops': ops, 'tags': ['reflect%d' % depth]}
         run_cases([cc])
         chain_cases.append(cc)
         nxt = []
-        for (k, tcp, pl, chain, k0), b in zip(cur, cc['impl'][2:]):
+        for (k, tcp, pl, chain, k0, dp), b in zip(cur, cc['impl'][2:]):
             parts = b['r'].split()
             if parts and parts[0] not in ('-', 'PANIC'):
                 r = bytes.fromhex(parts[0])
@@ -2182,15 +2321,15 @@ def explore_c12(prop, pd, tier, rng, corpus_cases):
                 ch = chain + [(k, pl, rc)]
                 if depth == 0 and rc == k and k in ('dns', 'stun', 'smb', 'rpc'):
                     violations.append({'clause': '%s message marked as a reply was answered by the %s responder' % (k, k),
-                                       'ops': [op_to_json(ops[0]), ['X'], op_to_json(app_op(rng, w, pl, tcp=tcp, v6=False, sport=4000, dport=5000))], 'tags': [k]})
+                                       'ops': [op_to_json(ops[0]), ['X'], op_to_json(app_op(rng, w, pl, tcp=tcp, v6=False, sport=4000, dport=dp))], 'tags': [k]})
                 if len(ch) > 2:
                     violations.append({'clause': 'reflection chain of a %s reply-typed message does not die out after two replies' % k0,
-                                       'ops': [op_to_json(ops[0]), ['X']] + [op_to_json(app_op(rng, w, x[1], tcp=tcp, v6=False, sport=4000, dport=5000)) for x in ch],
+                                       'ops': [op_to_json(ops[0]), ['X']] + [op_to_json(app_op(rng, w, x[1], tcp=tcp, v6=False, sport=4000, dport=dp)) for x in ch],
                                        'tags': [k0], 'chain': [x[2] for x in ch]})
                 else:
-                    nxt.append((rc, tcp, r, ch, k0))
+                    nxt.append((rc, tcp, r, ch, k0, dp))
         if depth == 0 and len(samples) < 3:
-            for (k, tcp, pl, chain, k0), b in list(zip(cur, cc['impl'][2:]))[:3]:
+            for (k, tcp, pl, chain, k0, dp), b in list(zip(cur, cc['impl'][2:]))[:3]:
                 samples.append({'class': k, 'transport': 'tcp' if tcp else 'udp', 'message': pl.hex()[:120], 'answer': b['r'][:80]})
         cur = nxt
         if not cur:
